@@ -271,8 +271,7 @@ class JnpSelectPlugin(PrimitiveLeafPlugin):
             def _patched(
                 condlist: Sequence[ArrayLike],
                 choicelist: Sequence[ArrayLike],
-                *,
-                default: ArrayLike | None = None,
+                default: ArrayLike = 0,
             ) -> jax.Array:
                 return cls._PRIM.bind(
                     *condlist,
